@@ -123,6 +123,29 @@ CHECKS = {
         'note': TRUST + ' Not decided: identical later behaviour beyond the modelled semantic fields (cache fields excluded by table).',
         'technique': 'static analysis: interprocedural effect summaries (semantic writes) x error-exit reachability over MIR CFGs',
     },
+    'C16': {
+        'text': 'evaluate_function, as path rules over its MIR: the pending output stream is cloned before it is cleared '
+                'and restored, and the host frame popped through complete_function_evaluation_from_game, on every '
+                'non-fault path from the frame push to a return; every error exit that can follow a write is a story fault '
+                'or pre-validated (empty/unknown names and bad argument types are refused before anything changes - C09 '
+                'machinery); the return channel pops down to the recorded evaluation-stack height and pops a '
+                'FunctionEvaluationFromGame frame after checking the frame type.',
+        'design_ref': 'DESIGN.md §4 C16',
+        'note': TRUST + ' Not decided: transparency for every later continuation (dynamic lock-step comparison).',
+        'technique': 'static analysis: CFG must-pass-through pairing + write-before-fail effect analysis over MIR',
+    },
+    'C17': {
+        'text': 'Classification clause of reset == fresh construction: reset_state replaces Story::state as a whole from '
+                'StoryState::new(program, list definitions) and then runs reset_globals, the same two steps as Story::new; '
+                'each of the 15 fields of Story is in exactly one class and the class is enforced - must-persist and '
+                'constant fields are written only by their allowed writers (effect events, never reset_state/load_state), '
+                'neutral fields by their rule (no look-ahead snapshot pending on any exit that completes a line, abort flag '
+                'cleared before every interpreter loop, async guard, nesting count paired); a new field is reported until '
+                'classified; a path jump with call-stack reset passes force_end, which writes neither variables nor counts.',
+        'design_ref': 'DESIGN.md §4 C17',
+        'note': TRUST + ' Not decided: "same seed" (no setter exists) and lock-step equality of continuations.',
+        'technique': 'static analysis: field classification + who-may-write via effect summaries + guard-atom dataflow over MIR',
+    },
 }
 
 NOT_APPLICABLE = {
